@@ -1,9 +1,10 @@
 """C17 - delivery-independent input; files stay separate; input-context is exact"""
-from ..scen_parser import tokenizer
+from ..scen_parser import tokenizer, selfcheck
 from ..scen_readinput import read_input
 
 
 def run(ctx):
+    selfcheck(ctx)
     n = 3 if ctx.quick else 4
     tokenizer(ctx, n, ['tok.location', 'tok.consumed', 'tok.value', 'tok.garbage', 'tok.end'], f'full alphabet n={n}')
     read_input(ctx, ['read.counters', 'read.locations', 'read.only_objects_and_arrays'])
